@@ -102,6 +102,7 @@ Inductive uop :=
 | DeleteWhere (t : tmpl) (omega : list sol)
 | Modify (w : option cid) (using_default using_named : bool)
          (del ins : option tmpl) (omega : list sol)
+| DeleteWhereW (t : tmpl)                             (* solutions computed by the model *)
 | ModifyW (w : option cid) (usingd usingn : list cid)
           (del ins : option tmpl) (where_ : Sparql.Algebra.alg)   (* WHERE evaluated by the model *)
 | Clear (silent : bool) (g : gspec)
@@ -225,10 +226,7 @@ Definition dw_one (e : env) (k : N) (tm : tmpl) (s : dstate) (im : N * sol) : ds
 Definition evalDeleteWhere (e : env) (k : N) (tm : tmpl) (omega : list sol) (s : dstate) : res :=
   if negb (is_nil (t_quads tm)) && negb (has_dataset e) then Raise s
   else
-    (* a GRAPH block named by a variable is matched against
-       get_context(Variable), an empty graph: the join has no solutions (F10f) *)
-    let om := if has_gvar tm then [] else omega in
-    Ok (fold_left (dw_one e k tm) (enum_from 0 om) s).
+    Ok (fold_left (dw_one e k tm) (enum_from 0 omega) s).
 
 Definition tm_has_quads (tm : option tmpl) : bool :=
   match tm with Some t => negb (is_nil (t_quads t)) | None => false end.
@@ -319,6 +317,29 @@ Definition m_ds (e : env) (w : option cid) (ud un : list cid) (a : qset) : Sparq
 Definition m_omega (e : env) (w : option cid) (ud un : list cid) (p : Sparql.Algebra.alg) (a : qset) : list sol :=
   Sparql.EvalTD.eval_td (m_ds e w ud un a) (m_active e w ud un a) [] p.
 
+(* DELETE WHERE: its quad pattern is pattern and template.  evalDeleteWhere (after the
+   repair of F10f): res = evalBGP(ctx, u.triples); for every GRAPH block
+   res = _join(res, list(evalPart(ctx, Graph(term=g, p=BGP(block))))) *)
+Definition conv_pos (p : tpos) : Sparql.Algebra.tv :=
+  match p with
+  | PConst t => Sparql.Algebra.Tm t
+  | PVar v => Sparql.Algebra.Vr v
+  | PBnode x => Sparql.Algebra.Tm 0      (* not in the grammar of DELETE WHERE *)
+  end.
+Definition conv_tpat (tp : tpat) : Sparql.Algebra.tpat :=
+  let '(x, y, z) := tp in (conv_pos x, conv_pos y, conv_pos z).
+Definition conv_gterm (g : gterm) : Sparql.Algebra.tv :=
+  match g with TGConst c => Sparql.Algebra.Tm (gname c) | TGVar v => Sparql.Algebra.Vr v end.
+Definition block_alg (b : gterm * list tpat) : Sparql.Algebra.alg :=
+  Sparql.Algebra.Graph (conv_gterm (fst b)) (Sparql.Algebra.BGP (map conv_tpat (snd b))).
+
+Definition dw_omega (e : env) (tm : tmpl) (a : qset) : list sol :=
+  let g := ctx_active e a in
+  let ds := m_ds e None [] [] a in
+  fold_left (fun res b => Sparql.Algebra.join_lists res (Sparql.EvalTD.eval_td ds g [] (block_alg b)))
+            (t_quads tm)
+            (Sparql.EvalTD.eval_bgp g [] (map conv_tpat (t_triples tm))).
+
 Fixpoint uses_graph (p : Sparql.Algebra.alg) : bool :=
   match p with
   | Sparql.Algebra.BGP _ | Sparql.Algebra.Values _ => false
@@ -386,6 +407,7 @@ Definition eval_op (e : env) (k : N) (o : uop) (s : dstate) : res :=
   | InsertData ts qs => evalInsertData e ts qs s
   | DeleteData ts qs => evalDeleteData e ts qs s
   | DeleteWhere tm om => evalDeleteWhere e k tm om s
+  | DeleteWhereW tm => evalDeleteWhere e k tm (dw_omega e tm (quads s)) s
   | Modify w ud _ d i om => evalModify e k w ud d i om s
   | ModifyW w ud un d i p =>
       (* evalGraph raises without a dataset, when list(res) is forced: before any write *)
@@ -483,18 +505,18 @@ Definition spec_clear (e : env) (g : gspec) (a : qset) : qset :=
   end.
 
 (* the query dataset of SPARQL 1.1 Update 3.1.3: without USING / USING NAMED the
-   store's own dataset (default graph = the WITH graph if given, else the real
-   default graph or - switch on - the union of all graphs); with them: default
+   Graph Store's own dataset: default graph = the WITH graph if given, else the
+   store's default graph - for a ConjunctiveGraph the union of all graphs when
+   the switch is on, for a Dataset(default_union=False) its real default graph
+   (the store's own configuration decides what its default graph is), for a
+   plain Graph the graph itself; with them: default
    graph = merge of the USING graphs (empty if none), named graphs = the USING
    NAMED graphs *)
 Definition s_active (e : env) (w : option cid) (ud un : list cid) (a : qset) : Sparql.Algebra.graph :=
   match ud, un with
   | [], [] => match w with
               | Some c => graph_at c a
-              | None => match e_fe e with
-                        | FGraph k => graph_at k a
-                        | _ => if e_union e then union_graph a else graph_at 0 a
-                        end
+              | None => ctx_active e a
               end
   | _, _ => merge_graphs ud a
   end.
@@ -509,11 +531,18 @@ Definition s_omega (e : env) (w : option cid) (ud un : list cid) (p : Sparql.Alg
   Sparql.EvalBU.eval_bu {| Sparql.Algebra.ds_default := s_active e w ud un a; Sparql.Algebra.ds_named := named_graphs (s_named e ud un a) a |}
              (s_active e w ud un a) p.
 
+(* DELETE WHERE: the pattern is the join of its blocks *)
+Definition dw_alg (tm : tmpl) : Sparql.Algebra.alg :=
+  fold_left (fun acc b => Sparql.Algebra.Join false acc (block_alg b)) (t_quads tm)
+            (Sparql.Algebra.BGP (map conv_tpat (t_triples tm))).
+
 Definition spec_op (e : env) (k : N) (o : uop) (a : qset) : qset :=
   match o with
   | InsertData ts qs => a ++ data_quads (dflt e) ts qs
   | DeleteData ts qs => qdiff a (data_quads (dflt e) ts qs)
   | DeleteWhere tm om => qdiff a (s_all e false k (dflt e) (Some tm) om)
+  | DeleteWhereW tm =>
+      qdiff a (s_all e false k (dflt e) (Some tm) (s_omega e None [] [] (dw_alg tm) (dedup quad_eqb a)))
   | Modify w _ _ d i om =>
       let dg := match w with Some c => c | None => dflt e end in
       qdiff a (s_all e false k dg d om) ++ s_all e true k dg i om
@@ -546,7 +575,7 @@ Fixpoint spec_from (e : env) (k : N) (ops : list uop) (a : qset) : qset :=
 Definition needs_dataset (o : uop) : bool :=
   match o with
   | InsertData _ qs | DeleteData _ qs => negb (is_nil qs)
-  | DeleteWhere tm _ => negb (is_nil (t_quads tm))
+  | DeleteWhere tm _ | DeleteWhereW tm => negb (is_nil (t_quads tm))
   | Modify w ud un d i _ =>
       match w with Some _ => true | None => false end || ud || un
       || tm_has_quads d || tm_has_quads i
@@ -646,19 +675,14 @@ Fixpoint graphs_outside (un : list cid) (p : Sparql.Algebra.alg) : bool :=
   | _ => true
   end.
 
-(* F10f: DELETE WHERE { GRAPH ?g {...} } deletes nothing.
-   F10i: USING NAMED does not restrict the WHERE dataset (the default graph is
-         not emptied, every named graph stays visible).
-   F10j: with the switch on a Dataset still reads only its real default graph *)
+(* F10i: USING NAMED does not restrict the WHERE dataset (the default graph is
+         not emptied, every named graph stays visible). *)
 Definition op_kf (e : env) (k : N) (o : uop) : N :=
   match o with
-  | DeleteWhere tm om => if has_gvar tm && negb (is_nil om) then 1 else 0
   | ModifyW w ud un d i p =>
       if negb (has_dataset e) then 0
       else if negb (is_nil ud) || negb (is_nil un) then
         (if graphs_outside un p || (is_nil ud && reads_default p) then 2 else 0)
-      else if (match e_fe e with FDS => true | _ => false end) && e_union e
-              && (match w with None => true | Some _ => false end) && reads_default p then 3
       else 0
   | _ => 0
   end.
